@@ -5,7 +5,8 @@
    IO/DeterminismSrc.v (+ Gen/C20SrcFacts.v, regenerated from /repo on every run). *)
 From Coq Require Import String Ascii List NArith ZArith Bool Permutation Sorted.
 From PyRTL Require Import IO.NatSort IO.NatSortProofs IO.NatSortTyped IO.Determinism IO.DeterminismProofs
-  IO.DeterminismRefuted IO.DeterminismInj Gen.C20Src IO.DeterminismSrc.
+  IO.DeterminismRefuted IO.DeterminismInj Gen.C20Src IO.DeterminismSrc IO.DeterminismTrace
+  IO.DeterminismTraceProofs.
 Import ListNotations.
 
 (* ---- (1) Python's sorted(key=) on a set: the result does not depend on the
@@ -327,6 +328,51 @@ Theorem C20_equal_sort_name_order_refuted : exists ns ns',
               [] [demo_nsec] [] ns'.
 Proof. exact src_shared_write_enable_refuted. Qed.
 Print Assumptions C20_equal_sort_name_order_refuted.
+
+(* ---- the BYTES of print_trace / print_vcd (IO/DeterminismTrace.v: source-driven ordering and
+   identifiers composed with the text layout of IO/Vcd.v; compared byte for byte with the real
+   text on every sampled design x schedule) do not depend on the order of the trace dict ---- *)
+Theorem C20_print_trace_bytes_perm_invariant : forall (base : Z) (compact : bool) items items',
+  Permutation items items' -> NoDup (map t_name items) ->
+  full_print_trace base compact items = full_print_trace base compact items'.
+Proof. exact full_print_trace_perm_invariant. Qed.
+Print Assumptions C20_print_trace_bytes_perm_invariant.
+
+Theorem C20_print_vcd_bytes_perm_invariant : forall (clock : bool) items items',
+  Permutation items items' -> NoDup (map t_name items) ->
+  full_print_vcd clock items = full_print_vcd clock items'.
+Proof. exact full_print_vcd_perm_invariant. Qed.
+Print Assumptions C20_print_vcd_bytes_perm_invariant.
+
+Theorem C20_print_vcd_ids_distinct : forall items, NoDup (map t_name items) ->
+  NoDup (map (fun e => varname (vcd_ids items) (t_name e)) items).
+Proof. exact full_print_vcd_ids_distinct. Qed.
+Print Assumptions C20_print_vcd_ids_distinct.
+
+(* non-vacuity: a trace with a leading-zero family, a case pair, two names needing VCD
+   identifiers and one that looks like a generated identifier; two dict orders, same bytes *)
+Definition ex_e (s : string) (w : N) (vals : list Z) : tentry :=
+  {| t_name := nm s; t_width := Z.of_N w; t_vals := vals |}.
+Definition ex_trace : list tentry :=
+  [ex_e "x01" 1 [0; 1]%Z; ex_e "w 0" 3 [5; 7]%Z; ex_e "x1" 1 [1; 1]%Z; ex_e "Data" 4 [9; 10]%Z;
+   ex_e "data" 4 [3; 0]%Z; ex_e "_vcd_tmp_0" 2 [2; 3]%Z; ex_e "a.b" 1 [0; 0]%Z].
+Definition ex_trace' : list tentry :=
+  [ex_e "a.b" 1 [0; 0]%Z; ex_e "_vcd_tmp_0" 2 [2; 3]%Z; ex_e "data" 4 [3; 0]%Z; ex_e "x1" 1 [1; 1]%Z;
+   ex_e "Data" 4 [9; 10]%Z; ex_e "w 0" 3 [5; 7]%Z; ex_e "x01" 1 [0; 1]%Z].
+Example C20_example_trace_bytes :
+  full_print_trace 10%Z true ex_trace = full_print_trace 10%Z true ex_trace'
+  /\ full_print_vcd true ex_trace = full_print_vcd true ex_trace'
+  /\ TraceBase.string_of_text (full_print_trace 16%Z true ex_trace) =
+     "      Data 9a
+_vcd_tmp_0 23
+       a.b 00
+      data 30
+       w 0 57
+       x01 01
+        x1 11
+"%string
+  /\ nodupb (map t_name ex_trace) = true.
+Proof. vm_compute. repeat split; reflexivity. Qed.
 
 (* ---- why the repairs were needed (models of the code before F15 / F16) ---- *)
 Theorem C20_sanitizer_set_order_refuted : exists (valid : name -> bool) prefix pres pres' s,
